@@ -1,15 +1,18 @@
 #!/bin/bash
-# re-run every archived seeded change against the checks recorded to catch it; prints CAUGHT / MISSED per pair
+# re-run every archived seeded change against the checks recorded to catch it; prints CAUGHT / MISSED per pair.
+# Each change is applied to a throw-away git worktree of /repo (PYTHONPATH), /repo itself is never touched.
 cd /verif
+WT=$(mktemp -d /tmp/seedrun.XXXXXX)
+git -C /repo worktree add -q --detach "$WT/r" HEAD || exit 9
+trap 'git -C /repo worktree remove --force "$WT/r"; rm -rf "$WT"' EXIT
 for d in seeded/*/; do
   id=$(basename $d)
   [ -n "$ONLY" ] && [[ ! " $ONLY " =~ " $id " ]] && continue
   checks=$(jq -r '.caught_by_quick_checks[]' $d/meta.json)
-  git -C /repo apply $d/patch.diff || { echo "$id: PATCH DOES NOT APPLY"; continue; }
+  git -C "$WT/r" checkout -q -- . ; git -C "$WT/r" apply "$PWD/$d/patch.diff" || { echo "$id: PATCH DOES NOT APPLY"; continue; }
   for pid in $checks; do
-    out=$(timeout 1800 /venv/bin/python -m gverif.run $pid --tier ${TIER:-quick} 2>&1); rc=$?
+    out=$(PYTHONPATH="$WT/r" GVERIF_C20_UTILS="$WT/r/utils" timeout 1800 /venv/bin/python -m gverif.run $pid --tier ${TIER:-quick} 2>&1); rc=$?
     n=$(echo "$out" | grep -c '^VIOLATION')
     if [ $rc -eq 1 ] && [ $n -gt 0 ]; then echo "$id x $pid: CAUGHT ($n violation lines)"; else echo "$id x $pid: MISSED (rc=$rc)"; fi
   done
-  git -C /repo checkout -- .
 done
